@@ -3335,3 +3335,12 @@ package sftp
 //@ extend func (*RequestServer).Serve
 //@   requires reqsPathOK(rs)
 // (reqsPathOK is a precondition of Serve like reqsOK: a server that has not served yet has an empty table)
+
+// C10: the link text a Readlink handler returns reaches the client verbatim, as both names of the single entry of
+// the NAME reply (seed C10-20: the text was passed through path.Clean first); the handler is asked about the
+// request's own path.
+//@ ghost var rlText string
+//@ extend func readlink
+//@   assert before call (ReadlinkFileLister).Readlink#1: arg1 == r.Filepath
+//@   update after call (ReadlinkFileLister).Readlink#1: ghost.rlText = ret0
+//@   ensures typeis(result, *sshFxpNamePacket) ==> len(result.(*sshFxpNamePacket).NameAttrs) == 1 && result.(*sshFxpNamePacket).NameAttrs[0] != nil && result.(*sshFxpNamePacket).NameAttrs[0].Name == ghost.rlText && result.(*sshFxpNamePacket).NameAttrs[0].LongName == ghost.rlText
